@@ -635,8 +635,8 @@ func (x *c04) r3() {
 			bad = "the inner operation is not performed for the active table"
 		}
 		// both scenarios return the inner result
-		for _, rn := range g.Returns() {
-			if len(inner) == 1 && g.Ins[rn].(*ssa.Return).Results[0] != g.Ins[inner[0]].(ssa.Value) {
+		for _, rc := range g.ReturnCases() {
+			if len(inner) == 1 && len(rc.Vals) > 0 && rc.Vals[0] != g.Ins[inner[0]].(ssa.Value) {
 				bad = "the result of the inner operation is not what is returned"
 			}
 		}
